@@ -90,4 +90,84 @@ theorem depthRun_calls_vm (limit : Nat) : ∀ n d, d ≤ limit →
       · have h3 : ¬ (d + 1 + n ≤ limit) := fun h => h2 (this.mp h)
         simp [h2, h3]
 
+theorem depthRun_append (call : Nat → Option Nat) : ∀ (es fs : List Ev) (d : Nat),
+    depthRun call (es ++ fs) d = (depthRun call es d).bind (depthRun call fs) := by
+  intro es
+  induction es with
+  | nil => intro fs d; simp [depthRun]
+  | cons e es ih =>
+    intro fs d
+    cases e with
+    | call =>
+      simp only [List.cons_append, depthRun]
+      cases call d with
+      | none => simp
+      | some d' => simp [ih]
+    | ret => simp only [List.cons_append, depthRun]; exact ih fs (d - 1)
+    | other => simp only [List.cons_append, depthRun]; exact ih fs d
+
+/-- `k` sequential counted invocations from depth `d`: back at `d` when one more level fits, the call-depth
+error (if there is any invocation at all) when it does not — whatever `k` is -/
+theorem depthRun_seq_interp (limit d : Nat) : ∀ k,
+    depthRun (interpCall limit) (List.replicate k seqCounted).flatten d =
+      if k = 0 ∨ d + 1 ≤ limit then some d else none := by
+  intro k
+  induction k with
+  | zero => simp [depthRun]
+  | succ k ih =>
+    simp only [List.replicate_succ, List.flatten_cons, seqCounted, List.cons_append, List.nil_append, depthRun,
+      interpCall]
+    by_cases hc : d + 1 > limit
+    · have : ¬ (d + 1 ≤ limit) := by omega
+      simp [hc, this]
+    · have h2 : d + 1 ≤ limit := by omega
+      simp only [hc, if_false, Nat.add_sub_cancel]
+      have := ih
+      simp only [seqCounted] at this
+      rw [this]; simp [h2]
+
+theorem depthRun_seq_vm (limit d : Nat) (hd : d ≤ limit) : ∀ k,
+    depthRun (vmCall limit) (List.replicate k seqCounted).flatten d =
+      if k = 0 ∨ d + 1 ≤ limit then some d else none := by
+  intro k
+  induction k with
+  | zero => simp [depthRun]
+  | succ k ih =>
+    simp only [List.replicate_succ, List.flatten_cons, seqCounted, List.cons_append, List.nil_append, depthRun]
+    by_cases hc : d = limit
+    · have : ¬ (d + 1 ≤ limit) := by omega
+      have hv : vmCall limit d = none := by simp [vmCall, hc]
+      simp [hv, this]
+    · have h2 : d + 1 ≤ limit := by omega
+      have hv : vmCall limit d = some (d + 1) := by simp [vmCall, hc]
+      simp only [hv, Nat.add_sub_cancel]
+      have := ih
+      simp only [seqCounted] at this
+      rw [this]; simp [h2]
+
+theorem depthRun_uncounted (call : Nat → Option Nat) (d : Nat) : ∀ k,
+    depthRun call (List.replicate k seqUncounted).flatten d = some d := by
+  intro k
+  induction k with
+  | zero => simp [depthRun]
+  | succ k ih =>
+    simp only [List.replicate_succ, List.flatten_cons, seqUncounted, List.cons_append, List.nil_append, depthRun]
+    simpa [seqUncounted] using ih
+
+theorem depthRun_destroyEv_vm (limit d : Nat) (hd : d + 2 ≤ limit) : ∀ k,
+    depthRun (vmCall limit) (List.replicate k destroyEvVM).flatten d = some d := by
+  intro k
+  induction k with
+  | zero => simp [depthRun]
+  | succ k ih =>
+    have h1 : vmCall limit d = some (d + 1) := by
+      have : d ≠ limit := by omega
+      simp [vmCall, this]
+    have h2 : vmCall limit (d + 1) = some (d + 1 + 1) := by
+      have : d + 1 ≠ limit := by omega
+      simp [vmCall, this]
+    simp only [List.replicate_succ, List.flatten_cons, destroyEvVM, List.cons_append, List.nil_append, depthRun,
+      h1, h2, Nat.add_sub_cancel]
+    simpa [destroyEvVM] using ih
+
 end Verif.Proofs.Metered
